@@ -26,8 +26,9 @@ CHECKER = ("coqc Props/C17.v + Print Assumptions; harness_cpp/build.sh (cargo bu
 HEADER = ("From Resolvo Require Import Data.CowVector.\nFrom Coq Require Import List NArith ZArith.\n"
           "Import ListNotations.\nOpen Scope N_scope.\n")
 HC = os.path.join(vlib.ROOT, "harness_cpp")
-DRIVER = os.path.join(vlib.BUILD, "cpp", "driver")
-COW_OPS = os.path.join(vlib.BUILD, "cargo_cpp", "debug", "cow_ops")
+CPP_OUT = os.path.join(vlib.BUILD, "cpp" + ("_" + vlib.TAG if vlib.TAG else ""))
+DRIVER = os.path.join(CPP_OUT, "driver")
+COW_OPS = os.path.join(vlib.BUILD, "cargo_cpp" + ("_" + vlib.TAG if vlib.TAG else ""), "debug", "cow_ops")
 STR0 = 100
 FEAT_NO_UNKNOWN = 255 & ~32   # Dependencies::Unknown cannot be expressed through the C++ interface
 
@@ -39,7 +40,8 @@ NOT_COVERED = ("not covered by any theorem: layout compatibility, pointer arithm
 
 def build():
     p = vlib.sh([os.path.join(HC, "build.sh")], cwd=HC, timeout=1500, check=False,
-                env=dict(vlib.ENV, VERIF_REPO=vlib.REPO, CARGO_TARGET_DIR=os.path.join(vlib.BUILD, "cargo_cpp")))
+                env=dict(vlib.ENV, VERIF_REPO=vlib.REPO, VERIF_CPP_OUT=CPP_OUT,
+                         CARGO_TARGET_DIR=os.path.join(vlib.BUILD, "cargo_cpp" + ("_" + vlib.TAG if vlib.TAG else ""))))
     if p.returncode != 0 or "build-ok" not in p.stdout:
         raise vlib.CheckError("C++ binding / drivers do not build from the current /repo tree:\n" + p.stdout[-3000:])
 
